@@ -207,4 +207,15 @@ var c11Benign = []core.Mutant{
 	{Name: "window-pipeline-struct-emitter-each", File: c11fCompute,
 		Find:    "\t\t\t// nextVersionIndex figures out what version of this child\n\t\t\t// is present in the next parent version\n\t\t\tnextVersion := nextVersionIndex(c, child, nextParent, opts)\n\n\t\t\tstart := 0\n\t\t\tif c != nil {\n\t\t\t\tstart = c.VersionIndex + 1\n\t\t\t} else {\n\t\t\t\t// current child is not defined, is next child\n\t\t\t\tnext := child.VersionBefore(timeThresholdParent(parent, 0))\n\t\t\t\tif next == nil {\n\t\t\t\t\tstart = 0\n\t\t\t\t} else {\n\t\t\t\t\tstart = next.VersionIndex + 1\n\t\t\t\t}\n\t\t\t}\n\n\t\t\tvar updates osm.Updates\n\t\t\tfor k := start; k < nextVersion; k++ {\n\t\t\t\tif child[k].Visible {\n\t\t\t\t\t// It's possible for this child to be present at multiple locations in the parent\n\t\t\t\t\tfor _, cl := range locs {\n\t\t\t\t\t\tu := child[k].Update()\n\t\t\t\t\t\tu.Index = cl.Index\n\t\t\t\t\t\tupdates = append(updates, u)\n\t\t\t\t\t}\n\t\t\t\t} else {\n\t\t\t\t\t// A child has become not-visible between parent version.\n\t\t\t\t\t// This is a data inconsistency that can happen in old data\n\t\t\t\t\t// i.e. pre element versioning.\n\t\t\t\t\t//\n\t\t\t\t\t// see node 321452894, changed 7 times in\n\t\t\t\t\t// the same changeset, version 5 was a delete. (also node 65172196)\n\t\t\t\t\tif !opts.IgnoreInconsistency {\n\t\t\t\t\t\treturn nil, fmt.Errorf(\"%v: %v: child deleted between parent versions\",\n\t\t\t\t\t\t\tparent.ID(), fid)\n\t\t\t\t\t}\n\t\t\t\t}\n\t\t\t}\n\n\t\t\t// we have what we need for this parent version.\n\t\t\tresults[parentIndex] = append(results[parentIndex], updates...)\n\t\t}\n\t}\n\n\tfor _, r := range results {\n\t\tr.SortByIndex()\n\t}\n\n\treturn results, nil\n}\n\n",
 		Replace: "\t\t\twin := windowOf(c, child, parent, nextParent, opts)\n\n\t\t\tvar updates osm.Updates\n\t\t\tem := emitter{into: &updates, locs: locs}\n\t\t\tk := win.from\n\t\twindow:\n\t\t\tfor {\n\t\t\t\tswitch {\n\t\t\t\tcase k >= win.to:\n\t\t\t\t\tbreak window\n\t\t\t\tcase child[k].Visible:\n\t\t\t\t\tem.emit(child[k])\n\t\t\t\tcase !opts.IgnoreInconsistency:\n\t\t\t\t\treturn nil, fmt.Errorf(\"%v: %v: child deleted between parent versions\",\n\t\t\t\t\t\tparent.ID(), fid)\n\t\t\t\t}\n\t\t\t\tk++\n\t\t\t}\n\n\t\t\t// we have what we need for this parent version.\n\t\t\tresults[parentIndex] = append(results[parentIndex], updates...)\n\t\t}\n\t}\n\n\tfor _, r := range results {\n\t\tr.SortByIndex()\n\t}\n\n\treturn results, nil\n}\n\n// span is the half open range of child versions that are minor versions of a parent.\ntype span struct{ from, to int }\n\nfunc windowOf(c *shared.Child, child ChildList, parent, nextParent Parent, opts *Options) (w span) {\n\tw.to = nextVersionIndex(c, child, nextParent, opts)\n\tif c == nil {\n\t\tc = child.VersionBefore(timeThresholdParent(parent, 0))\n\t}\n\tif c != nil {\n\t\tw.from = c.VersionIndex + 1\n\t}\n\treturn\n}\n\n// emitter appends one update per location.\ntype emitter struct {\n\tinto *osm.Updates\n\tlocs childLocs\n}\n\nfunc (e *emitter) emit(c *shared.Child) {\n\te.locs.each(func(cl childLoc) bool {\n\t\tu := c.Update()\n\t\tu.Index = cl.Index\n\t\t*e.into = append(*e.into, u)\n\t\treturn true\n\t})\n}\n\n// each calls f for every location until it returns false.\nfunc (locs childLocs) each(f func(childLoc) bool) {\n\tfor _, cl := range locs {\n\t\tif !f(cl) {\n\t\t\treturn\n\t\t}\n\t}\n}\n\n"},
+
+	// ---- round 9: the location map obtained elsewhere than from make
+	{Name: "location-map-reused-and-emptied", File: c11fCompute,
+		Find:    "// mapChildLocs builds a cache of a where a child is in a set of parents.\nfunc mapChildLocs(parents []Parent, filter func(osm.FeatureID) bool) map[osm.FeatureID]childLocs {\n\tresult := make(map[osm.FeatureID]childLocs)\n",
+		Replace: "// spareChildLocs is the location map of the previous call, kept for its buckets.\nvar spareChildLocs = make(map[osm.FeatureID]childLocs)\n\n// mapChildLocs builds a cache of a where a child is in a set of parents.\nfunc mapChildLocs(parents []Parent, filter func(osm.FeatureID) bool) map[osm.FeatureID]childLocs {\n\tresult := spareChildLocs\n\tfor stale := range result {\n\t\tdelete(result, stale)\n\t}\n"},
+	{Name: "location-map-from-helper", File: c11fCompute,
+		Find:    "// mapChildLocs builds a cache of a where a child is in a set of parents.\nfunc mapChildLocs(parents []Parent, filter func(osm.FeatureID) bool) map[osm.FeatureID]childLocs {\n\tresult := make(map[osm.FeatureID]childLocs)\n",
+		Replace: "func newChildLocsMap(sizeHint int) map[osm.FeatureID]childLocs {\n\treturn make(map[osm.FeatureID]childLocs, sizeHint)\n}\n\n// mapChildLocs builds a cache of a where a child is in a set of parents.\nfunc mapChildLocs(parents []Parent, filter func(osm.FeatureID) bool) map[osm.FeatureID]childLocs {\n\tresult := newChildLocsMap(len(parents))\n"},
+	{Name: "empty-history-guarded-before-last-version", File: c11fCompute,
+		Find:    "\tif nextParent == nil {\n\t\t// No next parent version",
+		Replace: "\tif len(child) < 1 {\n\t\treturn 0\n\t}\n\n\tif nextParent == nil {\n\t\t// No next parent version"},
 }
